@@ -229,12 +229,18 @@ class Sim(object):
                 env[st['x']] = ('ret', self.ev(env, st['e']))
             elif op == 'append':
                 env[st['x']][1].append(self.ev(env, st['e']))     # in-place mutation of a value the program holds
-            elif op == 'discard':
+            elif op in ('discard', 'force'):
                 if decorated:
-                    tr.discard_recording()
-            elif op == 'force':
-                if decorated:
-                    tr.force_sample_recording()
+                    fn = tr.discard_recording if op == 'discard' else tr.force_sample_recording
+                    if st.get('thread'):
+                        # the operation delegates the call to a helper thread and waits for it (no concurrency: the main
+                        # thread is blocked in join): the recorder-wide decision must not depend on which thread asked
+                        import threading
+                        t = threading.Thread(target=fn)
+                        t.start()
+                        t.join()
+                    else:
+                        fn()
             elif op == 'rec':
                 if decorated:
                     tr.record_data(st['k'], self.ev(env, st['e']))
@@ -453,6 +459,16 @@ class Sim(object):
 
     # ---------------------------------------------------------------------------------------------------------
     def end_of(self, thunk):
+        handler = (self.ctx.run or {}).get('inHandler')
+        if handler:
+            # the service calls the operation while it is handling an earlier error (a fallback / clean-up path)
+            inner = thunk
+
+            def thunk():
+                try:
+                    raise {'RuntimeError': RuntimeError, 'KeyboardInterrupt': KeyboardInterrupt}[handler]('earlier failure')
+                except BaseException:
+                    return inner()
         try:
             return ['ret', canon(thunk())]
         except Exception as ex:
